@@ -814,6 +814,10 @@ impl<'a> PayloadGen<'a> {
         let mut fields = Vec::new();
         self.collect(rt, sels, &mut fields, 0);
         let defs = self.s.fields_of(rt);
+        // the definition that counts (type AND deprecation status) is the one in the type the selection was written on:
+        // an implementor may narrow or deprecate an inherited field on its own
+        let mut owners = Vec::new();
+        self.owners(static_ty, rt, sels, &mut owners, 0);
         let mut out = Map::new();
         for (key, fname, sub) in fields {
             let val = match m.get(&key) {
@@ -826,7 +830,8 @@ impl<'a> PayloadGen<'a> {
                 }
                 continue;
             }
-            if let Some(def) = defs.iter().find(|f| f.name == fname) {
+            let owner_defs = owners.iter().find(|(k, _)| *k == key).map(|(_, o)| self.s.fields_of(o)).unwrap_or_else(|| defs.clone());
+            if let Some(def) = owner_defs.iter().find(|f| f.name == fname).or_else(|| defs.iter().find(|f| f.name == fname)) {
                 if self.deny_deprecated && def.dep.is_some() {
                     continue;
                 }
